@@ -211,7 +211,8 @@ def param_sets(name, sig, rng, how_many, small=False):
         # every indicator that takes a moving-average selector: a few selector types with everything else at its default
         for k, d in defaults.items():
             if 'matype' in k.lower() and isinstance(d, int):
-                for m_ in (1, 3, 10, 12):
+                for m_ in (1, 3, 10, 12, 16):
+                    # (16: the Gaussian filter strips leading NaNs of an intermediate series and pads its result again)
                     if m_ != d:
                         out.append({k: m_})
     for _ in range(how_many):
